@@ -280,6 +280,10 @@ def main(argv):
             t = futs[f]
             try:
                 results.append(f.result())
+                if os.environ.get('VERIF_PROGRESS'):
+                    r = results[-1]
+                    sys.stderr.write('[%6.1fs] %5.1fs %s %s %s\n' % (time.time() - t0, r.get('wall_s', 0), r['scenario'], json.dumps(r['params']),
+                                     (r.get('error') or r.get('exception') or '')[:200]))
             except Exception as e:
                 results.append({'scenario': t[1], 'params': t[2], 'obligations': [], 'error': 'worker died: %r' % (e,),
                                 'exception': None, 'wall_s': 0})
